@@ -273,3 +273,51 @@ Example ex_ad_cast :
   write_any_desc true false false 2 (AScalar T_DOUBLE) [] (GInt GT_I64 9007199254740993) = ([67; 64; 0; 0; 0; 0; 0; 0], 0) /\
   write_any_desc false false false 2 (AScalar T_BOOL) [] (GF64 4602678819172646912) = ([], 1).
 Proof. vm_compute. repeat split; reflexivity. Qed.
+
+(* ================================================================== generic Go values WITHOUT a descriptor, algorithm level *)
+(* model/ThriftAnyFree.v transcribes BinaryProtocol.WriteAny / ReadAny / GoType2ThriftType as coded (Go type dispatch: bool, the
+   integer kinds, float32/float64, string, []byte, []interface{}, map[string] / map[intN] / map[interface{}] with pointer keys,
+   map[FieldID] structs; header types taken from the first element; empty containers refused; options strAsBinary / byteAsInt8;
+   sliceAsSet changes no byte); checks 1927 / 1928 compare it with the implementation. *)
+From DG Require Import ThriftAnyFree ThriftAnyFreeProofs.
+
+(* ReadAny on the encoding of EVERY well-formed value answers its Go presentation and stands right behind it *)
+Theorem C19_read_free_refines_decode :
+  forall strbin i8 v n r,
+  wf v = true -> hdrs_ok v = true -> gfresh (gval_free strbin i8 v) = true -> (depth v <= n)%nat ->
+  read_any_free strbin i8 n (type_of v) (encode v ++ r) = Some (gval_free strbin i8 v, r).
+Proof. exact read_free_refines_decode. Qed.
+Print Assumptions C19_read_free_refines_decode.
+
+(* WriteAny of that presentation appends exactly the standard encoding, for the values WriteAny can express (free_ok: no empty
+   container, no set below the top, integer-keyed maps with I64 keys), every member / entry order *)
+Theorem C19_write_free_refines_encode :
+  forall sb i8 v n b,
+  wf v = true -> free_ok v = true -> bools01 v = true -> (depth v <= n)%nat ->
+  write_free n b (gval_free sb i8 v) = (b ++ encode v, 0).
+Proof. exact write_free_refines_encode. Qed.
+Print Assumptions C19_write_free_refines_encode.
+
+Theorem C19_read_write_free :
+  forall sb i8 v n r,
+  wf v = true -> free_ok v = true -> hdrs_ok v = true -> bools01 v = true -> gfresh (gval_free sb i8 v) = true -> (depth v <= n)%nat ->
+  exists out, write_free n [] (gval_free sb i8 v) = (out, 0) /\ out = encode v /\
+              read_any_free sb i8 n (type_of v) (out ++ r) = Some (gval_free sb i8 v, r).
+Proof. exact read_write_free. Qed.
+Print Assumptions C19_read_write_free.
+
+Example ex_free_val : tval :=
+  VStruct [ (2, VMap T_I64 T_LIST [(VI64 (-5), VList T_STRING [VString [120]])]);
+            (1, VMap T_STRUCT T_BYTE [(VStruct [(7, VDouble 0)], VByte (-2))]); (300, VBool 1) ].
+Example ex_free_hyps :
+  wf ex_free_val = true /\ free_ok ex_free_val = true /\ hdrs_ok ex_free_val = true /\ bools01 ex_free_val = true /\
+  gfresh (gval_free false true ex_free_val) = true /\
+  gval_free false true ex_free_val =
+    GStructN [ (2, GMapI GT_INT [(-5, GList [GStr [120]])]); (1, GMapA [(GPtr (GStructN [(7, GF64 0)]), GInt GT_I8 (-2))]); (300, GBool true) ] /\
+  write_free 4 [] (gval_free false true ex_free_val) = (encode ex_free_val, 0).
+Proof. vm_compute. repeat split; reflexivity. Qed.
+(* as coded: an empty slice is refused, a nil element panics (status 3), map[int] keys are written as I64 whatever the reader saw *)
+Example ex_free_quirks :
+  write_free 3 [] (GList []) = ([], 1) /\ write_free 3 [] (GList [GNil]) = ([], 3) /\
+  write_free 3 [] (GMapI GT_INT [(1, GBool true)]) = ([10; 2; 0; 0; 0; 1; 0; 0; 0; 0; 0; 0; 0; 1; 1], 0).
+Proof. vm_compute. repeat split; reflexivity. Qed.
